@@ -2687,10 +2687,15 @@ class SubheaderManager(object):
 
         # TODO: verify the mask information, in the event that value is a sequence?
         value = _flatten_bytes(value)
-        if self._item_size is not None and len(value) != self._item_size:
+        # NB: the item size of a masked image accounts for the mask table, which is not part of the item bytes
+        mask_subheader = getattr(self._subheader, 'mask_subheader', None)
+        expected_size = self._item_size
+        if expected_size is not None and mask_subheader is not None:
+            expected_size -= mask_subheader.get_bytes_length()
+        if expected_size is not None and len(value) != expected_size:
             raise ValueError(
                 'item_bytes input has size {},\n\t'
-                'but item_size has been defined as {}.'.format(len(value), self._item_size))
+                'but item_size has been defined as {}.'.format(len(value), expected_size))
         self._item_bytes = value
         self.item_size = len(value)
 
